@@ -16,6 +16,7 @@ import KinModel.Gen.SharedGlobals
 import KinModel.Gen.ConstructionWrites
 import KinModel.Lemmas.C15
 import KinModel.Lemmas.C15History
+import KinModel.Lemmas.C15Sched
 namespace KinModel.Conc
 
 /-! ## A. for every footprint, every number of threads, every interleaving -/
@@ -621,5 +622,34 @@ def busyCase : CaseM :=
 
 example : (caseTrace busyCase).length = 28 ∧ (outcomeOf 4 (caseTrace busyCase)).race = false := by
   decide
+
+/-! ## C′. the case model's traces are schedules; reuse inside a case -/
+
+/-- The trace of EVERY case is a complete interleaving of its goroutines (`IsSchedule`): goroutine `j < g` performs
+    exactly its own operation list `threadActs c j`, in order, and nothing else is in the trace — so `outcome_clean`
+    and the theorems below speak about interleavings of the goroutines' calls, whatever the seed. -/
+theorem case_trace_is_schedule (c : CaseM) :
+    IsSchedule (fun j => if j < c.g then threadActs c j else []) (caseTrace c) :=
+  fun j => caseTrace_proj c j
+
+/-- Reuse in the case model: in every case — any operations, any number of goroutines, any number `per` of calls per
+    goroutine on the one shared document, any interleaving seed — EACH call of each goroutine observes what that call
+    observes alone as the first call on the freshly loaded document. -/
+theorem case_calls_return_first_use_verdicts (c : CaseM) (j : Nat) (hj : j < c.g) :
+    readsOf j sigma0 (caseTrace c) = ((List.range c.per).map (fun r => solo sigma0 (getOp j c.ops (j + r)))).flatten := by
+  have hp : proj j (caseTrace c) = ((List.range c.per).map (fun r => getOp j c.ops (j + r))).flatten := by
+    rw [caseTrace_proj, if_pos hj, threadActs, List.flatMap_def]
+  have hc := caseTrace_clean c
+  have h := concurrent_reuse (caseCfg c) j _ (caseTrace c) sigma0 hp hc ?_ (sigma0_lazy c) (sigma0_coherent c)
+  · rw [h, List.map_map]; rfl
+  · intro call hcall a ha
+    have hmem : a ∈ proj j (caseTrace c) := by rw [hp]; exact List.mem_flatten.mpr ⟨call, hcall, ha⟩
+    obtain ⟨x, hx, rfl⟩ := mem_proj j (caseTrace c) a hmem
+    exact hc x hx
+
+/-- non-vacuity: in `busyCase` goroutine 1 performs two calls on the shared document (a legacy FindRoute, then a
+    ValidateRequest with patterns, arrays and an object default): the observations of the two calls, one after the other -/
+example : readsOf 1 sigma0 (caseTrace busyCase) = [1, 1] ++ [1, 1, 1, 1, 7, 0] ∧
+    (List.range busyCase.per).map (fun r => solo sigma0 (getOp 1 busyCase.ops (1 + r))) = [[1, 1], [1, 1, 1, 1, 7, 0]] := by decide
 
 end KinModel.Conc
